@@ -29,13 +29,15 @@ def _kinds(rng):
     nrm = math.sqrt(sum(a * a for a in ax)) or 1.0
     ax = [a / nrm for a in ax]
     if rng.random() < 0.3:
-        ax = rng.choice([[1.0, 0.0, 0.0], [0.0, 1.0, 0.0], [0.0, 0.0, 1.0]])
+        ax = rng.choice([[1.0, 0.0, 0.0], [0.0, 1.0, 0.0], [0.0, 0.0, 1.0], [-1.0, 0.0, 0.0], [0.0, -1.0, 0.0], [0.0, 0.0, -1.0]])
     return [
         ("translate", [rng.randint(-40, 40) / 4 for _ in range(3)]),
         ("scale", [rng.choice([0.5, 2.0, 1.0, 3.0, 0.25, rng.randint(1, 40) / 8]) for _ in range(3)]),
         ("rotx", [th]), ("roty", [th]), ("rotz", [th]),
         ("rot", ax + [th]),
         ("translate_origin", []),
+        # a general affine matrix (scaling followed by a translation) applied about the chosen centre
+        ("affine", [rng.choice([0.5, 2.0, 1.5]) for _ in range(3)] + [rng.randint(-40, 40) / 4 for _ in range(3)]),
     ]
 
 
@@ -48,7 +50,9 @@ def _expected(kind, a, center, root, P):
     if kind == "translate_origin":
         return P - np.asarray(root, dtype=np.float64)
     Q = P - c0
-    if kind == "scale":
+    if kind == "affine":
+        R = Q * np.asarray(a[:3]) + np.asarray(a[3:])
+    elif kind == "scale":
         R = Q * np.asarray(a)
     else:
         if kind == "rot":
@@ -66,7 +70,12 @@ def _transform(kind, a, center):
 
     kw = {} if center == "default" else {"center": center}
     if kind == "translate":
-        return Translate(*a)
+        return Translate(*a, **kw)
+    if kind == "affine":
+        from swcgeom.transforms import AffineTransform
+        from swcgeom.utils import scale3d, translate3d
+
+        return AffineTransform(translate3d(*a[3:]) @ scale3d(*a[:3]), **kw)
     if kind == "translate_origin":
         return TranslateOrigin()
     if kind == "scale":
@@ -94,7 +103,7 @@ class Affine(Suite):
                     off = t["xyz"][0][:]
                     t["xyz"] = [[p[i] - off[i] for i in range(3)] for p in t["xyz"]]
                 for kind, a in _kinds(rng):
-                    center = rng.choice(["root", "origin", "default", "soma"]) if kind not in ("translate", "translate_origin") else "default"
+                    center = rng.choice(["root", "origin", "default", "soma"]) if kind != "translate_origin" else "default"
                     out.append({"class": f"{kind}/{center}", "tree": t, "kind": kind, "a": a, "center": center, "warm": rng.random() < 0.5})
         return out
 
@@ -129,11 +138,11 @@ class Affine(Suite):
     def _center(self, case):
         c = case["center"]
         if c == "default":
-            return "root" if case["kind"] in ("scale", "rotx", "roty", "rotz", "rot") else "origin"
+            return "root" if case["kind"] in ("scale", "rotx", "roty", "rotz", "rot") else "origin"      # AffineTransform, Translate: origin
         return "root" if c in ("root", "soma") else "origin"
 
     def lines(self, case, res):
-        if "exc" in res or case["kind"] == "translate_origin":
+        if "exc" in res or case["kind"] in ("translate_origin", "affine"):
             return []
         t = case["tree"]
         root = t["xyz"][0]
@@ -182,7 +191,7 @@ class Matrices(Suite):
         out = []
         for _ in range(12 if tier == "quick" else 60):
             for kind, a in _kinds(rng):
-                if kind != "translate_origin":
+                if kind not in ("translate_origin", "affine"):
                     out.append({"class": kind, "kind": kind, "a": a})
         return out
 
